@@ -64,6 +64,9 @@ Definition op_wf (o : cop) : Prop :=
 
 Section P.
 Variable md5raw : bytes -> bytes.
+(* any flag combination in which the reply check of transport.go is in place (repaired and head) *)
+Variable fl : flags.
+Hypothesis Hfl : f_reply fl = true.
 Notation md5 := (md5 md5raw).
 Notation hmac := (hmac md5raw).
 
@@ -99,7 +102,7 @@ Qed.
 
 Lemma cstep_inv (secret : bytes) (st : pending) (h : list ev) (o : cop) :
   op_wf o -> cinv st h -> deliveries_authentic secret h ->
-  let '(st', out) := cstep md5raw repaired secret st o in
+  let '(st', out) := cstep md5raw fl secret st o in
   cinv st' (ev_of o out :: h) /\ deliveries_authentic secret (ev_of o out :: h).
 Proof.
   intros Hwf [Hlen Hst] Hgood. destruct o as [i r|d|i]; simpl in *.
@@ -110,7 +113,7 @@ Proof.
     + replace (N.to_nat id =? N.to_nat i)%nat with false by lia. reflexivity.
   - destruct (parse d) as [p|] eqn:Hp; [|simpl; split; [split; auto|exact Hgood]].
     destruct (nth (N.to_nat (p_id p)) st None) as [req|] eqn:Hn; [|simpl; split; [split; auto|exact Hgood]].
-    destruct (reply_ok md5raw repaired secret req d) eqn:Hok; [|simpl; split; [split; auto|exact Hgood]].
+    destruct (reply_ok md5raw fl secret req d) eqn:Hok; [|simpl; split; [split; auto|exact Hgood]].
     simpl. split.
     + split; [rewrite upd_length; exact Hlen|].
       intros id. simpl. rewrite nth_upd, Hlen, Hst.
@@ -122,7 +125,7 @@ Proof.
       * replace (N.to_nat id =? N.to_nat (p_id p))%nat with false by lia. reflexivity.
     + split; [|exact Hgood]. exists req. rewrite <- Hst. split; [exact Hn|].
       split; [symmetry; apply parse_id; exact Hp|].
-      unfold reply_ok in Hok. simpl in Hok. apply andb_true_iff in Hok. exact Hok.
+      unfold reply_ok in Hok. rewrite Hfl in Hok. apply andb_true_iff in Hok. exact Hok.
   - split; [|exact Hgood]. split; [rewrite upd_length; exact Hlen|].
     intros id. simpl. rewrite nth_upd, Hlen, Hst.
     destruct (N.eqb_spec i id) as [->|Hne].
@@ -133,13 +136,13 @@ Qed.
 Lemma crun_inv (secret : bytes) (ops : list cop) :
   Forall op_wf ops -> forall st h st' outs,
   cinv st h -> deliveries_authentic secret h ->
-  crun md5raw repaired secret st ops = (st', outs) ->
+  crun md5raw fl secret st ops = (st', outs) ->
   cinv st' (rev (events ops outs) ++ h) /\ deliveries_authentic secret (rev (events ops outs) ++ h).
 Proof.
   induction 1 as [|o ops Ho Hops IH]; intros st h st' outs Hi Hg Hr; simpl in Hr.
   - inversion Hr; subst. simpl. auto.
-  - destruct (cstep md5raw repaired secret st o) as [st1 out] eqn:Hs.
-    destruct (crun md5raw repaired secret st1 ops) as [st2 outs2] eqn:Hr2.
+  - destruct (cstep md5raw fl secret st o) as [st1 out] eqn:Hs.
+    destruct (crun md5raw fl secret st1 ops) as [st2 outs2] eqn:Hr2.
     inversion Hr; subst. simpl.
     pose proof (cstep_inv secret st h o Ho Hi Hg) as Hstep. rewrite Hs in Hstep. destruct Hstep as [Hi1 Hg1].
     specialize (IH st1 (ev_of o out :: h) st' outs2 Hi1 Hg1 Hr2).
@@ -148,7 +151,7 @@ Qed.
 
 Lemma reply_authentic (secret : bytes) (ops : list cop) st outs :
   Forall op_wf ops ->
-  crun md5raw repaired secret pending0 ops = (st, outs) ->
+  crun md5raw fl secret pending0 ops = (st, outs) ->
   deliveries_authentic secret (rev (events ops outs)).
 Proof.
   intros Hwf Hr. pose proof (crun_inv secret ops Hwf pending0 [] st outs cinv_init I Hr) as [_ H].
@@ -187,15 +190,30 @@ Proof.
   split; intros Hx; lia.
 Qed.
 
+(* all four committed repairs in place; the Event-Timestamp requirement on (= repaired) or off (= head) *)
+Definition flt (ts : bool) : flags :=
+  {| f_reply := true; f_coaauth := true; f_dmwin := true; f_white := true; f_tsreq := ts |}.
+
+Lemma window_ok_req_spec (w now : Z) (attrs : list attr) :
+  window_ok_req w now attrs = true <->
+  ((w <= 0)%Z \/ (event_ts attrs <> 0 /\ (- w <= now - Z.of_N (event_ts attrs) <= w)%Z)).
+Proof.
+  unfold window_ok_req.
+  destruct (Z.ltb_spec 0 w); [|split; auto; intros; lia].
+  destruct (N.ltb_spec 0 (event_ts attrs)); simpl; [|split; [discriminate|intros; lia]].
+  split; intros Hx; lia.
+Qed.
+
 Section Q.
 Variable md5raw : bytes -> bytes.
+Variable tsr : bool.
 
 Lemma nak_effect fl cl secret raw p code cause st : effect (nak md5raw fl cl secret raw p code cause st) = None.
 Proof. reflexivity. Qed.
 
 Lemma handle_coa_effect cfg now bus cl secret raw p e :
-  effect (handle_coa md5raw repaired cfg now bus cl secret raw p) = Some e ->
-  window_ok (window cfg) now (p_attrs p) = true /\
+  effect (handle_coa md5raw (flt tsr) cfg now bus cl secret raw p) = Some e ->
+  window_check (flt tsr) (window cfg) now (p_attrs p) = true /\
   exists t delta, e = EvMutation t delta /\ resolve_target (p_attrs p) = Some t /\
     nasid_ok (nasid cfg) (p_attrs p) = true /\ has_service_type (p_attrs p) 8 = false /\
     delta = strip_non_mutable (extract_attributes (maps cfg) (p_attrs p)) /\ delta <> [] /\
@@ -203,7 +221,7 @@ Lemma handle_coa_effect cfg now bus cl secret raw p e :
 Proof.
   unfold handle_coa.
   destruct (has_service_type (p_attrs p) 8) eqn:Hs; [rewrite nak_effect; discriminate|].
-  destruct (window_ok (window cfg) now (p_attrs p)) eqn:Hw; simpl negb; cbv iota; [|discriminate].
+  destruct (window_check (flt tsr) (window cfg) now (p_attrs p)) eqn:Hw; simpl negb; cbv iota; [|discriminate].
   destruct (resolve_target (p_attrs p)) as [t|] eqn:Ht; [|rewrite nak_effect; discriminate].
   destruct (nasid_ok (nasid cfg) (p_attrs p)) eqn:Hn; simpl negb; cbv iota; [|rewrite nak_effect; discriminate].
   destruct (strip_non_mutable (extract_attributes (maps cfg) (p_attrs p))) as [|kv delta] eqn:Hd;
@@ -217,26 +235,26 @@ Proof.
 Qed.
 
 Lemma handle_dm_effect cfg now cl secret raw p e :
-  effect (handle_dm md5raw repaired cfg now cl secret raw p) = Some e ->
-  window_ok (window cfg) now (p_attrs p) = true /\
+  effect (handle_dm md5raw (flt tsr) cfg now cl secret raw p) = Some e ->
+  window_check (flt tsr) (window cfg) now (p_attrs p) = true /\
   exists t, e = EvTerminate t /\ resolve_target (p_attrs p) = Some t /\
     nasid_ok (nasid cfg) (p_attrs p) = true /\ has_non_ident (p_attrs p) = false.
 Proof.
   unfold handle_dm.
   destruct (has_non_ident (p_attrs p)) eqn:Hs; [rewrite nak_effect; discriminate|].
-  destruct (window_ok (window cfg) now (p_attrs p)) eqn:Hw; simpl f_dmwin; simpl negb; simpl andb; cbv iota; [|discriminate].
+  destruct (window_check (flt tsr) (window cfg) now (p_attrs p)) eqn:Hw; simpl f_dmwin; simpl negb; simpl andb; cbv iota; [|discriminate].
   destruct (resolve_target (p_attrs p)) as [t|] eqn:Ht; [|rewrite nak_effect; discriminate].
   destruct (nasid_ok (nasid cfg) (p_attrs p)) eqn:Hn; simpl negb; cbv iota; [|rewrite nak_effect; discriminate].
   simpl. intros He; inversion He; subst. split; [reflexivity|]. exists t. auto.
 Qed.
 
 Lemma coa_admission cfg now src bus raw e :
-  effect (coa_step md5raw repaired cfg now src bus raw) = Some e ->
+  effect (coa_step md5raw (flt tsr) cfg now src bus raw) = Some e ->
   exists cl c p,
     find_client 0 (clients cfg) src = Some (cl, c) /\ parse raw = Some p /\
     req_auth_ok md5raw (c_secret c) (truncate raw) = true /\
     ma_req_ok_rfc md5raw (c_secret c) (truncate raw) = true /\
-    window_ok (window cfg) now (p_attrs p) = true /\
+    window_check (flt tsr) (window cfg) now (p_attrs p) = true /\
     match e with
     | EvMutation t delta =>
       p_code p = 43 /\ resolve_target (p_attrs p) = Some t /\ nasid_ok (nasid cfg) (p_attrs p) = true /\
@@ -386,15 +404,15 @@ Proof.
   - destruct (0 <? cause); constructor; [reflexivity|constructor].
 Qed.
 
-Lemma own_replies_verify (secret reqraw : bytes) (p : packet) (code cause : N) :
-  (20 <= length reqraw)%nat ->
-  let reply := build_coa_reply md5raw repaired secret reqraw p code cause in
+Lemma own_replies_verify (fl : flags) (secret reqraw : bytes) (p : packet) (code cause : N) :
+  f_coaauth fl = true -> (20 <= length reqraw)%nat ->
+  let reply := build_coa_reply md5raw fl secret reqraw p code cause in
   let reqauth := sub 4 16 reqraw in
   resp_auth_ok md5raw secret reqauth reply = true /\
   ma_resp_ok md5raw secret reqauth reply = true /\
   (find_attr80 reqraw <> None -> find_attr80 reply <> None).
 Proof.
-  intros Hlen reply reqauth.
+  intros Hfl Hlen reply reqauth.
   assert (Hra : length reqauth = 16%nat).
   { unfold reqauth, sub. rewrite firstn_length, skipn_length. lia. }
   set (pre := filter (fun a => fst a =? 33) (p_attrs p) ++ (if 0 <? cause then [(101, put32 cause)] else [])).
@@ -403,7 +421,7 @@ Proof.
   { unfold reply_attrs. rewrite (app_assoc (filter _ _)). fold pre. rewrite enc_attrs_app. reflexivity. }
   assert (Hattrs_no : enc_attrs (reply_attrs p cause false) = enc_attrs pre).
   { unfold reply_attrs. rewrite app_nil_r. reflexivity. }
-  unfold reply, build_coa_reply. simpl f_coaauth.
+  unfold reply, build_coa_reply. rewrite Hfl.
   destruct (find_attr80 reqraw) as [o|] eqn:Hreq; cbv zeta iota beta; fold reqauth.
   - (* request carried a Message-Authenticator *)
     rewrite Hattrs_ma.
@@ -484,46 +502,91 @@ Fixpoint deliveries_issued (issued : bytes -> bytes -> Prop) (h : list ev) : Pro
   | _ :: t => deliveries_issued issued t
   end.
 Lemma forged_not_acted_on :
-  forall md5raw secret (issued : bytes -> bytes -> Prop),
+  forall md5raw fl secret (issued : bytes -> bytes -> Prop),
+    f_reply fl = true ->
     (forall reqauth d, resp_auth_ok md5raw secret reqauth d = true -> issued reqauth d) ->
     forall ops st outs,
       Forall op_wf ops ->
-      crun md5raw repaired secret pending0 ops = (st, outs) ->
+      crun md5raw fl secret pending0 ops = (st, outs) ->
       deliveries_issued issued (rev (events ops outs)).
 Proof.
-  intros md5raw secret issued Hunf ops st outs Hwf Hr.
-  pose proof (reply_authentic md5raw secret ops st outs Hwf Hr) as H.
+  intros md5raw fl secret issued Hfl Hunf ops st outs Hwf Hr.
+  pose proof (reply_authentic md5raw fl Hfl secret ops st outs Hwf Hr) as H.
   induction (rev (events ops outs)) as [|e h IH]; simpl in *; auto.
   destruct e as [| |d [id|]]; auto.
   destruct H as [[req (Ha & _ & Hra & _)] Ht]. split; auto. exists req; auto.
 Qed.
 
-Lemma coa_admission_thm :
-  forall md5raw cfg now src bus raw e,
-    effect (coa_step md5raw repaired cfg now src bus raw) = Some e ->
-    exists cl c p,
-      nth_error (clients cfg) cl = Some c /\ contains c src = true /\
-      (forall j c', (j < cl)%nat -> nth_error (clients cfg) j = Some c' -> contains c' src = false) /\
-      parse raw = Some p /\
-      req_auth_ok md5raw (c_secret c) (truncate raw) = true /\
-      ma_req_ok_rfc md5raw (c_secret c) (truncate raw) = true /\
-      ((window cfg <= 0)%Z \/ event_ts (p_attrs p) = 0 \/
-       (- window cfg <= now - Z.of_N (event_ts (p_attrs p)) <= window cfg)%Z) /\
-      nasid_ok (nasid cfg) (p_attrs p) = true /\
-      match e with EvMutation _ _ => p_code p = 43 | EvTerminate _ => p_code p = 40 end.
+Definition admitted_by (md5raw : bytes -> bytes) (cfg : coacfg) (src : N) (raw : bytes) (e : cevent)
+           (window_clause : packet -> Prop) : Prop :=
+  exists cl c p,
+    nth_error (clients cfg) cl = Some c /\ contains c src = true /\
+    (forall j c', (j < cl)%nat -> nth_error (clients cfg) j = Some c' -> contains c' src = false) /\
+    parse raw = Some p /\
+    req_auth_ok md5raw (c_secret c) (truncate raw) = true /\
+    ma_req_ok_rfc md5raw (c_secret c) (truncate raw) = true /\
+    window_clause p /\
+    nasid_ok (nasid cfg) (p_attrs p) = true /\
+    match e with EvMutation _ _ => p_code p = 43 | EvTerminate _ => p_code p = 40 end.
+
+Lemma coa_admission_gen :
+  forall md5raw tsr cfg now src bus raw e,
+    effect (coa_step md5raw (flt tsr) cfg now src bus raw) = Some e ->
+    admitted_by md5raw cfg src raw e (fun p => window_check (flt tsr) (window cfg) now (p_attrs p) = true).
 Proof.
-  intros md5raw cfg now src bus raw e He.
-  destruct (coa_admission md5raw cfg now src bus raw e He) as (cl & c & p & Hc & Hp & Hra & Hma & Hw & Hm).
+  intros md5raw tsr cfg now src bus raw e He.
+  destruct (coa_admission md5raw tsr cfg now src bus raw e He) as (cl & c & p & Hc & Hp & Hra & Hma & Hw & Hm).
   apply find_client_spec in Hc as (_ & Hn & Hcs & Hfirst). rewrite Nat.sub_0_r in *.
   exists cl, c, p. repeat split; auto.
-  - apply window_ok_spec; exact Hw.
   - destruct e; apply Hm.
   - destruct e; apply Hm.
 Qed.
 
-Lemma coa_mutable_only_thm :
+(* repaired: while the window is enabled the request carries a usable Event-Timestamp inside it *)
+Lemma coa_admission_thm :
   forall md5raw cfg now src bus raw e,
     effect (coa_step md5raw repaired cfg now src bus raw) = Some e ->
+    admitted_by md5raw cfg src raw e
+      (fun p => (window cfg <= 0)%Z \/
+                (event_ts (p_attrs p) <> 0 /\
+                 (- window cfg <= now - Z.of_N (event_ts (p_attrs p)) <= window cfg)%Z)).
+Proof.
+  intros md5raw cfg now src bus raw e He.
+  destruct (coa_admission_gen md5raw true cfg now src bus raw e He) as (cl & c & p & H).
+  exists cl, c, p. intuition. apply window_ok_req_spec. assumption.
+Qed.
+
+(* /repo HEAD (Event-Timestamp not required): the window is enforced only on requests that carry one *)
+Lemma coa_admission_head_thm :
+  forall md5raw cfg now src bus raw e,
+    effect (coa_step md5raw head cfg now src bus raw) = Some e ->
+    admitted_by md5raw cfg src raw e
+      (fun p => (window cfg <= 0)%Z \/ event_ts (p_attrs p) = 0 \/
+                (- window cfg <= now - Z.of_N (event_ts (p_attrs p)) <= window cfg)%Z).
+Proof.
+  intros md5raw cfg now src bus raw e He.
+  destruct (coa_admission_gen md5raw false cfg now src bus raw e He) as (cl & c & p & H).
+  exists cl, c, p. intuition. apply window_ok_spec. assumption.
+Qed.
+
+(* a captured request can be replayed only for a bounded time: if the same datagram takes effect at two
+   instants while the window is enabled, they are at most 2*window seconds apart *)
+Lemma coa_replay_span_bounded :
+  forall md5raw cfg src raw now1 bus1 e1 now2 bus2 e2,
+    (0 < window cfg)%Z ->
+    effect (coa_step md5raw repaired cfg now1 src bus1 raw) = Some e1 ->
+    effect (coa_step md5raw repaired cfg now2 src bus2 raw) = Some e2 ->
+    (Z.abs (now1 - now2) <= 2 * window cfg)%Z.
+Proof.
+  intros md5raw cfg src raw now1 bus1 e1 now2 bus2 e2 Hw H1 H2.
+  destruct (coa_admission_thm _ _ _ _ _ _ _ H1) as (? & ? & p1 & _ & _ & _ & Hp1 & _ & _ & Hw1 & _).
+  destruct (coa_admission_thm _ _ _ _ _ _ _ H2) as (? & ? & p2 & _ & _ & _ & Hp2 & _ & _ & Hw2 & _).
+  rewrite Hp1 in Hp2. inversion Hp2; subst p2. lia.
+Qed.
+
+Lemma coa_mutable_only_thm :
+  forall md5raw tsr cfg now src bus raw e,
+    effect (coa_step md5raw (flt tsr) cfg now src bus raw) = Some e ->
     exists p, parse raw = Some p /\
       match e with
       | EvMutation t delta =>
@@ -533,8 +596,8 @@ Lemma coa_mutable_only_thm :
         resolve_target (p_attrs p) = Some t /\ has_non_ident (p_attrs p) = false
       end.
 Proof.
-  intros md5raw cfg now src bus raw e He.
-  destruct (coa_admission md5raw cfg now src bus raw e He) as (cl & c & p & _ & Hp & _ & _ & _ & Hm).
+  intros md5raw tsr cfg now src bus raw e He.
+  destruct (coa_admission md5raw tsr cfg now src bus raw e He) as (cl & c & p & _ & Hp & _ & _ & _ & Hm).
   exists p. split; [exact Hp|]. destruct e as [t delta|t].
   - destruct Hm as (_ & Ht & _ & _ & Hd & Hne & Ha). repeat split; auto.
     + eapply all_allowed_spec; eauto.
@@ -603,3 +666,67 @@ Proof.
 Qed.
 
 End T.
+
+(* ------------------------------------------------------------------ Provider.Authenticate *)
+Section U.
+Variable md5raw : bytes -> bytes.
+Variable fl : flags.
+Hypothesis Hfl : f_reply fl = true.
+
+Lemma pending0_nth j : nth j pending0 None = None.
+Proof.
+  unfold pending0. destruct (nth_in_or_default j (repeat (@None bytes) 256) None) as [H|H]; auto.
+  apply repeat_spec in H. exact H.
+Qed.
+
+Lemma first_delivered_spec secret st : forall dgs d,
+  first_delivered md5raw fl secret st dgs = Some d ->
+  In d dgs /\ exists p req, parse d = Some p /\ nth (N.to_nat (p_id p)) st None = Some req /\
+                            reply_ok md5raw fl secret req d = true.
+Proof.
+  induction dgs as [|d0 r IH]; intros d H; simpl in H; [discriminate|].
+  unfold cstep in H.
+  destruct (parse d0) as [p|] eqn:Hp.
+  2:{ apply IH in H as [Hi He]. split; [right; exact Hi|exact He]. }
+  destruct (nth (N.to_nat (p_id p)) st None) as [req|] eqn:Hn.
+  2:{ apply IH in H as [Hi He]. split; [right; exact Hi|exact He]. }
+  destruct (reply_ok md5raw fl secret req d0) eqn:Hok.
+  - inversion H; subst. split; [left; reflexivity|]. exists p, req. auto.
+  - apply IH in H as [Hi He]. split; [right; exact Hi|exact He].
+Qed.
+
+(* observable-level statement: whatever Authenticate returns other than an error was decided by a datagram
+   that is in the list received, has the identifier of the request, the matching code, and verifies against
+   the authenticator of the request that was sent *)
+Definition decided_by (secret req : bytes) (dgs : list bytes) (code : N) (k : packet -> Prop) : Prop :=
+  exists d p, In d dgs /\ parse d = Some p /\ p_code p = code /\ p_id p = nth 1 req 0 /\
+              resp_auth_ok md5raw secret (sub 4 16 req) (truncate d) = true /\
+              ma_resp_ok md5raw secret (sub 4 16 req) (truncate d) = true /\ k p.
+
+Lemma authenticate_authentic secret extract req dgs :
+  match authenticate md5raw fl secret extract req dgs with
+  | AAllowed attrs => decided_by secret req dgs 2 (fun p => attrs = extract (p_attrs p))
+  | ADenied => decided_by secret req dgs 3 (fun _ => True)
+  | AError => True
+  end.
+Proof.
+  unfold authenticate.
+  set (st := fst (cstep md5raw fl secret pending0 (CSend (nth 1 req 0) req))).
+  assert (Hst : st = upd (N.to_nat (nth 1 req 0)) (Some req) pending0) by reflexivity.
+  destruct (first_delivered md5raw fl secret st dgs) as [d|] eqn:Hf; [|exact I].
+  apply first_delivered_spec in Hf as (Hin & p & req' & Hp & Hn & Hok).
+  rewrite Hst, nth_upd in Hn.
+  destruct (Nat.eqb_spec (N.to_nat (p_id p)) (N.to_nat (nth 1 req 0))) as [Hc|Hc]; simpl andb in Hn.
+  2:{ rewrite pending0_nth in Hn; discriminate. }
+  match type of Hn with (if ?b then _ else _) = _ => destruct b end; [|rewrite pending0_nth in Hn; discriminate].
+  inversion Hn; subst req'.
+  assert (Hpid : p_id p = nth 1 req 0) by lia.
+  unfold reply_ok in Hok. rewrite Hfl in Hok. apply andb_true_iff in Hok as [Hra Hma].
+  unfold auth_outcome. rewrite Hp.
+  destruct (N.eqb_spec (p_code p) 2) as [H2|H2].
+  - exists d, p. repeat split; auto.
+  - destruct (N.eqb_spec (p_code p) 3) as [H3|H3]; [|exact I].
+    exists d, p. repeat split; auto.
+Qed.
+
+End U.
